@@ -744,6 +744,7 @@ func (c *Ctx) c07Positioned(dir string, first, second []byte) {
 			return f, func() { f.Close() }
 		}},
 	}
+	var agree [4][]string
 	for _, k := range kinds {
 		for pass := 0; pass < 2; pass++ {
 			r, done := k.mk()
@@ -752,17 +753,23 @@ func (c *Ctx) c07Positioned(dir string, first, second []byte) {
 				continue
 			}
 			if pass == 0 {
-				c.Emit("c07.read", hx(first), c07ReadVia(r))
-				c.Emit("c07.read", hx(second), c07ReadVia(r)) // the second file follows immediately
+				a1, a2 := c07ReadVia(r), c07ReadVia(r) // the second file follows immediately
+				c.Emit("c07.read", hx(first), a1)
+				c.Emit("c07.read", hx(second), a2)
+				agree[0], agree[1] = append(agree[0], hx([]byte(a1))), append(agree[1], hx([]byte(a2)))
 			} else {
 				a, _ := c07ReadMeshVia(r)
 				c.Emit("c07.readmesh", hx(first), a)
 				b, _ := c07ReadMeshVia(r)
 				c.Emit("c07.readmesh", hx(second), b)
+				agree[2], agree[3] = append(agree[2], hx([]byte(a))), append(agree[3], hx([]byte(b)))
 			}
 			done()
 		}
 		c.Note("positioned." + k.name)
+	}
+	for _, as := range agree { // seekable and non-seekable readers, positioned or not, must give one answer
+		c.Emit("c07.holds.readers_agree", fmt.Sprintf("%d %s", len(as), strings.Join(as, " ")), "true")
 	}
 }
 
